@@ -98,7 +98,10 @@ def check_tree(doc, stage):
 
 
 def _attached(node, doc):
+    """docutils' Element.remove() leaves the removed child's parent pointer in place: follow real child links only."""
     while node.parent is not None:
+        if not any(c is node for c in node.parent.children):
+            return False
         node = node.parent
     return node is doc
 
